@@ -632,6 +632,15 @@ func ruleShrunkSetsNormalised(p *Program, r *Report) {
 								return true, "built under an emptiness test"
 							}
 						}
+						// a store that is the result of a persistent insert (frozen Map.With / Set.With) has at least
+						// the inserted entry
+						for _, b := range built {
+							if c, ok := b.(*ssa.Call); ok {
+								if g := c.Call.StaticCallee(); g != nil && !InRepo(g) && baseName(g) == "With" && strings.Contains(g.String(), "arr-ai/frozen") {
+									return true, "built around a persistent insert (never empty)"
+								}
+							}
+						}
 						// a struct that is the receiver with fields updated in place (Array.Without's clone) still needs the test
 						return false, "a " + TypeName(x.X.Type()) + " built here"
 					case *ssa.Extract:
